@@ -8,7 +8,7 @@ NOTES = {
     "C06": "Added in round 8: (c) the pair helpers of the spacing table decide both sides of a token whenever the neighbouring token exists.",
     "C08": "Added in round 8: (e) the pair helpers of the spacing table decide both sides of a token whenever the neighbouring token exists (shared with C06.c).",
     "C09": "Added in round 8: (j) no closure that replaces token text or stores layout counters is driven by a short-circuiting iterator adapter (zero-count rule with a positive fixture).",
-    "C11": "Added in round 8: (i) outside the Potentials combinators no One/None is built where a Potentials value is known to be Two; (j) number of penalty-only pruning tables of the search (1, known finding: C11 clause 3 fails through it); (k) every token kind that can contain a line break is measured by its last line.",
+    "C11": "Added in round 8: (i) outside the Potentials combinators no One/None is built where a Potentials value is known to be Two; (j) number of penalty-only pruning tables of the search (1, known finding: C11 clause 3 fails through it); (k) every token kind that can contain a line break is measured by its last line (known finding: compiler / conditional directives are measured whole).",
     "C12": "Added in round 8: (h) the string pass hands every logical line to the string formatter (whole line list, element-preserving adapters only, the call in every iteration); (i) = C09.j.",
     "C15": "Added in round 8: (k) one step of process_cursors' walk as a decision table: attached cursors untouched, otherwise only `remainder <= token length` decides between attaching and advancing.",
     "C16": "Added in round 8: (k) the directory walk keeps every entry that is not a directory and has a recognised extension (shared with C18.f/h); (e)/(j) follow a shared stdin driver through its callback.",
